@@ -31,6 +31,16 @@ func makeUserFriendlyError(err error, duration time.Duration, errorContext strin
 		return nil
 	}
 
+	// A dial that timed out never reached the backend. It also satisfies
+	// errors.Is(err, context.DeadlineExceeded), so without this it is reported as a response
+	// timeout and, with the cause dropped, the retry handler no longer recognises a
+	// connection-level failure: no failover, endpoint left in rotation
+	var dialErr *net.OpError
+	if errors.As(err, &dialErr) && dialErr.Op == "dial" && dialErr.Timeout() {
+		return fmt.Errorf("connection timed out after %.1fs - cannot reach LLM backend at %s (check backend is running): %w",
+			duration.Seconds(), dialErr.Addr, err)
+	}
+
 	switch {
 	case errors.Is(err, context.Canceled):
 		// Common client timeout pattern (curl default, browser timeouts, etc.)
